@@ -62,6 +62,42 @@ def run_method(ix, cls, name, args=(), opaque=(), force=None, presets=None):
     return m, I, o, paths
 
 
+def row_synthesis_rules(rep, ix, cls, cname, tag, nx):
+    """K6 / K7: the new row is A.Z + B.b (Fried: A.(Z - rho) + B.b + rho) with Z the values of the *current* screen at the stencil
+    coordinates and b one fresh draw from the instance generator (also run by C05: the recursion has the von Karman covariance as
+    its stationary law only if every step reads the rows the previous step produced)"""
+    m, I, o, paths = run_method(ix, cls, "get_new_row", presets={"_R": Rat.sym("self._R", ("attr", "rng"))})
+    rep.functions_analysed.add(m.fq)
+    scr = A("_scrn")
+    coords = A("stencil_coords")
+    full = ("slice", Rat.const(0), None, None)
+    Z = Rat.atom(Fn("getitem", (scr, (Rat.atom(Fn("getitem", (coords, (full, Rat.const(0))))), Rat.atom(Fn("getitem", (coords, (full, Rat.const(1)))))))))
+    if len(paths) != 1 or not isinstance(paths[0][2], Rat):
+        rep.unknown("K6.row-synthesis", "%s.get_new_row" % tag, "expected one path", m.where())
+    else:
+        v = _strip_row_shape(paths[0][2], nx)
+        draws = find_atoms(v, lambda a: isinstance(a, Fn) and a.name == "draw")
+        okd = len(draws) == 1 and draws[0].args[1] == "normal" and same_value(draws[0].args[2], Rat.const(0)) and \
+            same_value(draws[0].args[3], Rat.const(1)) and same_value(draws[0].args[4], nx) and \
+            same_value(draws[0].args[0], Rat.sym("self._R", ("attr", "rng")))
+        rep.check(okd, "K6.innovation", "%s.get_new_row: b = one draw of N(0,1)^nx_size from the instance generator" % tag,
+                  "innovation draws: %s" % [repr(d)[:100] for d in draws], m.where())
+        if len(draws) == 1:
+            b = Rat.atom(draws[0])
+            Am, Bm = A("A_mat"), A("B_mat")
+            if cname == "PhaseScreenKolmogorov":
+                rho = Rat.atom(Fn("getitem", (scr, A("reference_coord"))))
+                want = Rat.atom(Fn("dot", (Am, Z - rho))) + Rat.atom(Fn("dot", (Bm, b))) + rho
+                check_equal(rep, "K7.fried-row", "%s.get_new_row == A.(Z - rho) + B.b + rho, rho = screen[reference_coord]" % tag, v, want,
+                            m.where(), what="new row")
+            else:
+                want = Rat.atom(Fn("dot", (Am, Z))) + Rat.atom(Fn("dot", (Bm, b)))
+                check_equal(rep, "K6.row-synthesis", "%s.get_new_row == A.Z + B.b, Z = screen[(coords[:,0], coords[:,1])]" % tag, v, want,
+                            m.where(), what="new row")
+            rep.sample({"class": tag, "new_row": nf(v, 400)})
+
+
+
 def run(rep, tier, root=None):
     ix = get_index(root)
     om = ix.virtual("_oracle_c04", ORACLE)
@@ -227,36 +263,7 @@ def run(rep, tier, root=None):
         rep.check(not al or (len(al) == 1 and same_value(al[0][2][0], (nx, nx))), "K5.B-matrix", "%s.makeBMatrix: diagonal matrix is nx_size x nx_size" % tag,
                   "diagonal factor allocated as %s" % [nf(c[2][0]) for c in al], m.where())
 
-        # ---- K6/K7 row synthesis
-        m, I, o, paths = run_method(ix, cls, "get_new_row", presets={"_R": Rat.sym("self._R", ("attr", "rng"))})
-        rep.functions_analysed.add(m.fq)
-        scr = A("_scrn")
-        coords = A("stencil_coords")
-        full = ("slice", Rat.const(0), None, None)
-        Z = Rat.atom(Fn("getitem", (scr, (Rat.atom(Fn("getitem", (coords, (full, Rat.const(0))))), Rat.atom(Fn("getitem", (coords, (full, Rat.const(1)))))))))
-        if len(paths) != 1 or not isinstance(paths[0][2], Rat):
-            rep.unknown("K6.row-synthesis", "%s.get_new_row" % tag, "expected one path", m.where())
-        else:
-            v = _strip_row_shape(paths[0][2], nx)
-            draws = find_atoms(v, lambda a: isinstance(a, Fn) and a.name == "draw")
-            okd = len(draws) == 1 and draws[0].args[1] == "normal" and same_value(draws[0].args[2], Rat.const(0)) and \
-                same_value(draws[0].args[3], Rat.const(1)) and same_value(draws[0].args[4], nx) and \
-                same_value(draws[0].args[0], Rat.sym("self._R", ("attr", "rng")))
-            rep.check(okd, "K6.innovation", "%s.get_new_row: b = one draw of N(0,1)^nx_size from the instance generator" % tag,
-                      "innovation draws: %s" % [repr(d)[:100] for d in draws], m.where())
-            if len(draws) == 1:
-                b = Rat.atom(draws[0])
-                Am, Bm = A("A_mat"), A("B_mat")
-                if cname == "PhaseScreenKolmogorov":
-                    rho = Rat.atom(Fn("getitem", (scr, A("reference_coord"))))
-                    want = Rat.atom(Fn("dot", (Am, Z - rho))) + Rat.atom(Fn("dot", (Bm, b))) + rho
-                    check_equal(rep, "K7.fried-row", "%s.get_new_row == A.(Z - rho) + B.b + rho, rho = screen[reference_coord]" % tag, v, want,
-                                m.where(), what="new row")
-                else:
-                    want = Rat.atom(Fn("dot", (Am, Z))) + Rat.atom(Fn("dot", (Bm, b)))
-                    check_equal(rep, "K6.row-synthesis", "%s.get_new_row == A.Z + B.b, Z = screen[(coords[:,0], coords[:,1])]" % tag, v, want,
-                                m.where(), what="new row")
-                rep.sample({"class": tag, "new_row": nf(v, 400)})
+        row_synthesis_rules(rep, ix, cls, cname, tag, nx)
 
         # ---- K12 constructor order
         init = M("__init__")
